@@ -85,6 +85,21 @@ let dispatch = function
     put_list (fun (i, o) -> put_int i; put_op o) ops;
     put_list (fun ss -> put_list put_expect (List.concat_map expected ss)) sss;
     put_bool (if framed c then self_check (List.map snd ops) else true)
+  | "session" ->  (* ops (0 w h | 1 send) -> guard, per installed writer: its transport ops; per writer:
+                     headers flag, has-transport flag, expectations; self check of framed writers *)
+    let next_w () = match next_int () with 0 -> WNone | 1 -> WPlain | 2 -> WStdout | _ -> WAwait in
+    let ops = read_list (fun () ->
+      match next_int () with
+      | 0 -> let w = next_w () in let h = next_int () = 1 in OSetWriter (w, h)
+      | _ -> OSend (next_send ())) in
+    let out = p_run p_init ops in
+    let (ss0, segs) = seg ops in
+    put_bool (List.for_all send_guard ss0 && List.for_all (fun ((_, _), ss) -> List.for_all send_guard ss) segs);
+    let per = List.mapi (fun i _ -> for_writer (nat_of_int i) out) segs in
+    put_list (fun ops -> put_list put_op ops) per;
+    put_list (fun ((w, h), ss) ->
+      put_bool h; put_bool (w <> WNone); put_list put_expect (List.concat_map expected ss)) segs;
+    put_bool (List.for_all2 (fun ((w, h), _) ops -> if h && w <> WNone then self_check ops else true) segs per)
   | "escape" -> put_hex (escape (next_str ()))
   | "dumps" -> put_hex (dumps (next_tree ()))
   | "unescape" ->
